@@ -246,6 +246,9 @@ pub fn dispatch(t: &[&str]) -> Option<Out> {
         // sm2_kex <dA> <dB> <idA> <idB> <klen> <rA> <rB> <tamper>
         //   tamper: comma list of ra|rb|sb|sa (flip one bit of that message in transit) or "-"
         "sm2_kex" => return Some(kex(t)),
+        // sm2_kexforge <dA> <dB> <idA> <idB> <klen> <rA> <rB> <sb|sa> <32-byte value>: an honest run in which the confirmation
+        // value S_B (resp. S_A) is REPLACED in transit by the given value
+        "sm2_kexforge" => return Some(kexforge(t)),
         // sm2_kexseq <dA> <dB> <idA> <idB> <klen> <rA1,rA2,..> <rB1,rB2,..>: honest sessions on ONE long-lived pair of objects
         "sm2_kexseq" => return Some(kexseq(t)),
         // sign then verify with the library itself: sm2_sv <d> <id> <msg> <cands>
@@ -335,6 +338,9 @@ pub fn dispatch(t: &[&str]) -> Option<Out> {
                 "trunc" => { let l: usize = t[7].parse().unwrap(); ct.truncate(l); }
                 "prefix" => { ct[0] = t[7].parse::<u16>().unwrap() as u8; }
                 "c1" => { let mut n = unhex(t[7]); n.extend_from_slice(&ct[c1len..]); ct = n; }
+                // xor <pos1,pos2,..:mask> : XOR the byte `mask` (hex) into each listed byte position
+                "xor" => { let (ps, m) = t[7].split_once(':').unwrap(); let m = u8::from_str_radix(m, 16).unwrap();
+                           for q in ps.split(',') { let i: usize = q.parse().unwrap(); ct[i] ^= m; } }
                 _ => panic!("bad tamper kind"),
             }
             res(sk.decrypt(&ct, t[3] == "1", model(t[4])), |m| hx(&m))
@@ -392,6 +398,29 @@ fn flip(p: &Point) -> Point {
     let x = u256_from_be_bytes(&b[1..33]);
     let y = u256_from_be_bytes(&b[33..65]);
     vh::to_jacobi(&vh::fp_to_mont(&x), &vh::fp_to_mont(&y))
+}
+
+fn kexforge(t: &[&str]) -> Out {
+    let ska = match Sm2PrivateKey::new(&unhex(t[1])) { Ok(k) => k, Err(e) => return Out::Err(errname(e)) };
+    let skb = match Sm2PrivateKey::new(&unhex(t[2])) { Ok(k) => k, Err(e) => return Out::Err(errname(e)) };
+    let ida = leak(t[3]);
+    let idb = leak(t[4]);
+    let klen: usize = t[5].parse().unwrap();
+    let pka = ska.to_public_key();
+    let pkb = skb.to_public_key();
+    let mut a = match Exchange::new(klen, ida, &pka, &ska, idb, &pkb) { Ok(x) => x, Err(e) => return Out::Err(errname(e)) };
+    let mut b = match Exchange::new(klen, idb, &pkb, &skb, ida, &pka) { Ok(x) => x, Err(e) => return Out::Err(errname(e)) };
+    push_cands(&format!("{},{}", t[6], t[7]));
+    let ra = match a.exchange_1() { Ok(p) => p, Err(e) => return Out::Err(format!("step1:{}", errname(e))) };
+    let r2 = b.exchange_2(&ra);
+    vh::clear();
+    let (rb, sb) = match r2 { Ok(x) => x, Err(e) => return Out::Err(format!("step2:{}", errname(e))) };
+    let mut forged = [0u8; 32];
+    forged.copy_from_slice(&unhex(t[9]));
+    let sb_a = if t[8] == "sb" { forged } else { sb };
+    let sa = match a.exchange_3(&rb, sb_a) { Ok(x) => x, Err(e) => return Out::Err(format!("step3:{}", errname(e))) };
+    let sa_b = if t[8] == "sa" { forged } else { sa };
+    match b.exchange_4(sa_b, &ra) { Ok(true) => Out::Ok("accepted".into()), Ok(false) => Out::Err("step4:false".into()), Err(e) => Out::Err(format!("step4:{}", errname(e))) }
 }
 
 fn kexseq(t: &[&str]) -> Out {
